@@ -791,6 +791,12 @@ class Database:
         )
         root = comps[0][0]
 
+        # the core's name look-ups also answer for the assemblies in the spent fuel pool, which was
+        # not attached yet when the core was put together
+        core = getattr(root, "core", None)
+        if core is not None:
+            core.regenAssemblyLists()
+
         # return a Reactor object
         if cs[CONF_SORT_REACTOR]:
             root.sort()
